@@ -434,3 +434,79 @@ pub fn allowance_independence(rep: &Report, roots: &[Root], depth_of: &dyn Fn(&R
     });
     jobs.len() as u64
 }
+
+
+/// Roots whose iterations cost next to nothing but whose lines stay long: fortresses (two blocked pawn walls,
+/// each king walks its own back rank). The search runs all 99 iterations in milliseconds and nests null moves
+/// far deeper than on any ordinary root (plies around 70): whatever is indexed by the ply has to hold it.
+/// The whole search is run (no depth stop): it must end by itself, without a panic, every line well-formed.
+pub fn fortress_full_searches(rep: &Report, info_lines: &AtomicU64) -> u64 {
+    let h = ZobristHasher::create_zobrist_hasher();
+    let quick = rep.quick();
+    let mut roots: Vec<Pos> = Vec::new();
+    let walls = ["p1p1p1p1/P1P1P1P1/8/8/p1p1p1p1/P1P1P1P1", "1p1p1p1p/1P1P1P1P/8/8/1p1p1p1p/1P1P1P1P", "pp1pp1pp/PP1PP1PP/8/8/8/8"];
+    for (wi, wall) in walls.iter().enumerate() {
+        for wk in 0..8i8 {
+            for bk in 0..8i8 {
+                if quick && !((wk == bk && wk % 3 == 0) || (wk == 0 && bk == 7)) {
+                    continue;
+                }
+                for stm in ["w", "b"] {
+                    let mut rank1 = String::new();
+                    let mut rank8 = String::new();
+                    for f in 0..8i8 {
+                        rank1.push(if f == wk { 'K' } else { '1' });
+                        rank8.push(if f == bk { 'k' } else { '1' });
+                    }
+                    let squeeze = |r: &str| -> String {
+                        let mut out = String::new();
+                        let mut n = 0;
+                        for ch in r.chars() {
+                            if ch == '1' {
+                                n += 1;
+                            } else {
+                                if n > 0 {
+                                    out.push_str(&n.to_string());
+                                    n = 0;
+                                }
+                                out.push(ch);
+                            }
+                        }
+                        if n > 0 {
+                            out.push_str(&n.to_string());
+                        }
+                        out
+                    };
+                    let fen = format!("{}/{}/{} {} - - 0 1", squeeze(&rank8), wall, squeeze(&rank1), stm);
+                    if let Some(p) = Pos::from_fen(&fen) {
+                        if p.is_legal_position() && !p.legal_moves().is_empty() && (wi < 2 || !quick) {
+                            roots.push(p);
+                        }
+                    }
+                }
+            }
+        }
+    }
+    let cap: u64 = 3_000_000;
+    let deepest_ply_seen = AtomicU64::new(0);
+    crate::e4_session::run_parallel(roots.len(), |i| {
+        let pos = &roots[i];
+        let root = Root { name: pos.fen(), command: format!("position fen {}", pos.fen()), board: board_of_pos(pos, &h), table: { let mut t = DrawTable::new(); t.table.insert(board_of_pos(pos, &h).zobrist_key, 1); t }, pos: *pos };
+        let run = run_search(&root.board, &root.table, Some(cap), 0);
+        let facts = RootFacts { legal: pos.legal_moves(), successors: Vec::new() };
+        check_infos(rep, &root, &facts, &run, Some(cap), 0, info_lines);
+        let deepest = run.infos.iter().filter_map(|l| parse_info(l).ok()).map(|i| i.depth).max().unwrap_or(0);
+        let longest_pv = run.infos.iter().map(|l| l.split(" depth ").next().unwrap_or("").split_whitespace().count().saturating_sub(2)).max().unwrap_or(0);
+        deepest_ply_seen.fetch_max(longest_pv as u64, Ordering::Relaxed);
+        if let Some(p) = &run.panicked {
+            rep.fail("C07", "search-panic/deep-iterations-on-a-fortress", format!("{}: the search panicked in iteration {}: {}", root.name, deepest + 1, p), case_json(&root, Some(cap), 0));
+        } else if run.queries >= cap {
+            rep.note(format!("{}: the whole search needs more than {} clock consultations (reached iteration {}): not run to its end", root.name, cap, deepest));
+        } else if deepest != 99 {
+            rep.fail("C18", "search-ends-before-its-depth-limit", format!("{}: the search ended by itself after iteration {} (no panic reported)", root.name, deepest), case_json(&root, Some(cap), 0));
+        }
+    });
+    rep.add("fortress_roots_searched_to_the_end_of_iteration_99", roots.len() as u64);
+    rep.add("longest_principal_variation_reported_on_a_fortress_root", deepest_ply_seen.load(Ordering::Relaxed));
+    roots.len() as u64
+}
